@@ -81,3 +81,11 @@ package model
 //@ func (*Target).IsTest(t) (r)
 //@   pure
 //@   ensures [suffix] r <==> hasSuffix(t.Label.Name, "test")
+
+//@ func (*Target).GetDependencies(t) (r)
+//@   pure
+//@   ensures [field] r == t.Dependencies
+
+//@ func (*Alias).GetDependencies(a) (r)
+//@   pure
+//@   ensures [actual] len(r) == 1 && r[0] == a.Actual
